@@ -6,6 +6,8 @@ case kinds
          "xl": None|[labels of X, when they differ from yl]}
          cv = ["s", fh, wl, step, iw, sww] | ["e", fh, wl, step, sww] | ["w", fh, wl] | ["c", cutoffs, fh, wl] | ["ns"]
   split {"op": "split", "train": [...], "test": [...], "fh": [...], "yl", "yv", "x"}      (direct call of `_split`)
+  lib   {"op": "lib", "fc": "last"|"mean", "cv", "strat", "met": "default"|"mape", "yl", "yv"}
+         evaluate with sktime's own NaiveForecaster and metric objects; oracle only (not sent to the model)
 
 The forecaster handed to evaluate is `Rec`, a real sktime forecaster subclass defined here that records every
 fit/update/predict argument and forecasts deterministically from what it was given (exact rational arithmetic).
@@ -48,7 +50,8 @@ ASSUMPTIONS = ["integer time index (positions/labels); datetime/period indexes o
                "refit rows are compared with a FRESH forecaster under the explicit hypothesis that fit does not depend on the earlier state (FitResets)",
                "observations = the y and X handed to fit/update; the exogenous rows handed to predict are by design future-dated and are not counted as leaked observations"]
 RULE = ("exhaustive small scope over splitter kind x fh x window x step x strategy x X/no X x return_data for 3<=n<=7 (quick: seed-rotated 1/23 slice; n=8,9 sampled 2/5 in thorough), metric rotated, "
-        "+ random series up to n=120 with gapped / shifted labels + failing-forecaster histories + malformed arguments + direct _split calls; "
+        "(feasible window configurations all, infeasible ones 1/5) + random series up to n=120 with gapped / shifted labels + failing-forecaster histories "
+        "+ malformed arguments + direct _split calls + an oracle-only stream with sktime's NaiveForecaster and metric objects; "
         "distinct by driver line; non-trivial = evaluate returned a table with at least one row")
 LEVEL_TEXT = ("Lean 4 theorems, for all series, splitter configurations, both strategies, all forecaster machines and all metrics, about an executable model of evaluate(): "
               "one row per split, each row = the honest fold (fresh fit / fit-once-then-update) on exactly that split's window and test labels, len_train_window and cutoff columns, "
@@ -278,6 +281,8 @@ def to_line(c):
         return "C07 eval %s %s %s %s %s %s %s %s %s" % (
             _cv_tok(c["cv"]), strat, c["met"], show_bool(c["rd"]), "none" if c.get("fp") is None else c["fp"], fail,
             show_ints(c["yl"]), show_rats(c["yv"]), _x_tok(c))
+    if c["op"] == "lib":
+        return None
     if c["op"] == "split":
         return "C07 split %s %s %s %s %s %s" % (show_ints(c["train"]), show_ints(c["test"]), show_ints(c["fh"]),
                                                show_ints(c["yl"]), show_rats(c["yv"]), _x_tok(c))
@@ -295,6 +300,18 @@ def run_real(c):
         except Exception as e:
             return "err=" + canon_err(e)
     from sktime.forecasting.model_evaluation import evaluate
+    if c["op"] == "lib":
+        from sktime.forecasting.naive import NaiveForecaster
+        try:
+            y, _ = make_data(c)
+            scoring, _ = make_metric(c["met"])
+            res = evaluate(NaiveForecaster(strategy=c["fc"]), make_cv(c["cv"]), y, strategy=c["strat"], scoring=scoring, return_data=True)
+            sc = [col for col in res.columns if col.startswith("test_")]
+            return "err=none score=%s len=%s cut=%s pred=%s" % (
+                ",".join(repr(float(v)) for v in res[sc[0]]), show_ints(res["len_train_window"]), show_ints(res["cutoff"]),
+                ";".join("%s:%s" % (show_ints(p.index), ",".join(repr(float(v)) for v in p)) for p in res["y_pred"]))
+        except Exception as e:
+            return "err=%s score=- len=- cut=- pred=-" % canon_err(e)
     Rec = rec_class()
     f = Rec(fail=c.get("fail"))
     err, name, score, ln, cut, data = "none", "-", "-", "-", "-", "-"
@@ -441,8 +458,66 @@ def _frame_labels(s):
     return [] if l == "-" else [int(v) for v in l.split(",")]
 
 
+def _oracle_lib(c, out):
+    """honest folds with sktime's own NaiveForecaster and metric objects"""
+    fails = []
+    from sktime.forecasting.base import ForecastingHorizon
+    from sktime.forecasting.naive import NaiveForecaster
+    d = _fields(out)
+    y, _ = make_data(c)
+    try:
+        splits = [(list(tr), list(te)) for tr, te in make_cv(c["cv"]).split(y)]
+    except Exception:
+        return fails
+    if d["err"] != "none":
+        if splits and _cv_valid(c):
+            fails.append(("evaluate:valid-call-raised", "evaluate raised %s with NaiveForecaster on an in-scope input" % d["err"]))
+        return fails
+    scores = [float(v) for v in d["score"].split(",")]
+    lens = parse_ints_(d["len"]); cuts = parse_ints_(d["cut"])
+    preds = d["pred"].split(";")
+    if not (len(scores) == len(lens) == len(cuts) == len(splits)):
+        return [("evaluate:rows-not-one-per-split", "%d rows for %d splits" % (len(scores), len(splits)))]
+    _, metric = make_metric(c["met"])
+    g = NaiveForecaster(strategy=c["fc"])
+    for i, (tr, te) in enumerate(splits):
+        fh = ForecastingHorizon(y.index[te], is_relative=False)
+        if c["strat"] == "refit":
+            g = NaiveForecaster(strategy=c["fc"]); g.fit(y.iloc[tr], fh=fh)
+        elif i == 0:
+            g.fit(y.iloc[tr], fh=fh)
+        else:
+            g.update(y.iloc[tr])
+        yp = g.predict(fh)
+        got_lab, got_val = preds[i].split(":")
+        if got_lab != show_ints(yp.index) or not all(abs(float(a) - float(b)) <= 1e-9 * max(1, abs(float(b))) for a, b in zip(got_val.split(","), yp)):
+            fails.append(("evaluate:forecast-differs-from-honest-fold", "fold %d (NaiveForecaster %s): %s vs %s" % (i, c["fc"], preds[i], list(yp))))
+            break
+        want = float(metric(y.iloc[te], yp))
+        if abs(scores[i] - want) > 1e-9 * max(1, abs(want)):
+            swapped = float(metric(yp, y.iloc[te]))
+            if abs(scores[i] - swapped) <= 1e-9 * max(1, abs(swapped)):
+                fails.append(("evaluate:score-args-swapped", "fold %d (NaiveForecaster, %s): reported %r = metric(y_pred, y_true); metric(y_true, y_pred) = %r" % (i, c["met"], scores[i], want)))
+            else:
+                fails.append(("evaluate:score-differs-from-honest-fold", "fold %d (NaiveForecaster): reported %r, honest fold gives %r" % (i, scores[i], want)))
+            break
+        if lens[i] != len(tr):
+            fails.append(("evaluate:len-train-window", "fold %d: %d, window has %d" % (i, lens[i], len(tr))))
+            break
+        if cuts[i] != int(g.cutoff):
+            fails.append(("evaluate:cutoff-column", "fold %d: %d, honest fold's forecaster says %d" % (i, cuts[i], int(g.cutoff))))
+            break
+    return fails
+
+
+def parse_ints_(s):
+    return [] if s == "-" else [int(x) for x in s.split(",")]
+
+
 def oracle(c, out):
     fails = []
+    if c["op"] == "lib":
+        return _oracle_lib(c, out) if _in_scope(c) else fails
     if c["op"] != "eval" or not _in_scope(c):
         return fails
     from sktime.forecasting.base import ForecastingHorizon
@@ -561,6 +636,8 @@ def oracle(c, out):
 def nontrivial(c, out):
     if c["op"] == "split":
         return out.startswith("ytrain=")
+    if c["op"] == "lib":
+        return out.startswith("err=none")
     d = _fields(out)
     return d["err"] == "none" and d["len"] != "-"
 
@@ -568,6 +645,9 @@ def nontrivial(c, out):
 def features(c, out):
     if c["op"] == "split":
         return ["op=split", "split=" + ("ok" if out.startswith("ytrain=") else out)]
+    if c["op"] == "lib":
+        return ["op=lib", "lib-forecaster=naive-" + c["fc"], "lib-metric=" + c["met"], "lib-strategy=" + c["strat"],
+                "lib-result=" + ("table" if out.startswith("err=none") else out.split(" ")[0])]
     d = _fields(out)
     f = ["op=eval", "cv=" + c["cv"][0], "strategy=" + str(c["strat"]), "metric=" + c["met"], "X=" + ("yes" if c.get("x") is not None else "no"),
          "return_data=%s" % c["rd"], "result=" + ("table" if d["err"] == "none" else d["err"]), "fail=" + ("no" if c.get("fail") is None else "injected")]
@@ -710,6 +790,18 @@ def gen_cases(tier, rng):
         c = base(); c["xl"] = [v + 1 for v in c["yl"]]; cases.append(c)          # X index differs
         c = base(); c["xl"] = list(reversed(c["yl"])); cases.append(c)
         c = base(); c["yl"] = []; c["yv"] = []; c["x"] = None; cases.append(c)
+    # ---- sktime's own forecaster and metric objects (oracle only)
+    nl = 150 if quick else 1500
+    for _ in range(nl):
+        n = rng.randrange(9, 40)
+        fh = sorted(rng.sample(range(1, 5), rng.randrange(1, 4)))
+        wl = rng.randrange(2, max(3, n // 2))
+        step = rng.randrange(1, 5)
+        cv = rng.choice([["s", fh, wl, step, None, True], ["e", fh, wl, step, True], ["w", fh, None], ["s", fh, wl, step, wl + 2, True],
+                         ["c", sorted(rng.sample(range(2, n - 4), 2)), fh, wl]])
+        cases.append({"op": "lib", "fc": rng.choice(["last", "mean"]), "cv": cv, "strat": rng.choice(["refit", "update"]),
+                      "met": rng.choice(["default", "mape"]), "yl": _labels(rng, n, rng.choice(["zero", "shift"])), "yv": _values(rng, n),
+                      "x": None, "xl": None})
     # ---- direct `_split` calls
     ns = 150 if quick else 1500
     for _ in range(ns):
